@@ -214,4 +214,26 @@ ok = check()
 return ok
 """
         out.append(mk_case(f"c07.cast.reuse.{cid}", [("u1", UN), ("t", "int")], body, pre=[f"BU({L}, u1, t)"], stubs=["sym_repr"]))
+    # documents built from dict / list / str subclasses, with and without casts
+    body = """
+import collections
+class Seq(list):
+    pass
+class Quoted(str):
+    pass
+doc = collections.OrderedDict([('a', collections.OrderedDict([('x', u1), ('flag', Quoted('true'))])), ('b', collections.defaultdict(dict, {'k': {'n': Quoted('3')}})),
+                               ('jobs', Seq([collections.OrderedDict(n='7'), {'n': Quoted('x')}, Seq([u1, '5'])])), ('c', Quoted(''))])
+rules = [Rule((MapValue(), MapValue()), Value.truthy() | Value.less_than(t), cast={str: valida.casting.cast_string_to_bool}),
+         Rule(('jobs', ListValue(), 'n'), Value.greater_than(t), cast={str: int}),
+         Rule(('b', 'k', 'n'), Value.equal_to(t), cast={str: int}),
+         Rule((MapOrListValue(), MapOrListValue(), MapOrListValue()), Value.length.less_than(t) | Value.is_instance(int)),
+         Rule(('jobs', 2, ListValue()), Value.in_range(t, 9), cast={str: int}),
+         Rule((), Value.keys_contain('a'))]
+good = True
+for r in rules:
+    good = good and isinstance(r.test(doc).is_valid, bool)
+v = Schema(rules).validate(doc)
+return good and isinstance(v.is_valid, bool) and v.cast_data is not None and isinstance(v.get_failures_string(), str)
+"""
+    out.append(mk_case("c07.subclass_docs", [("u1", UN), ("t", "int")], body, pre=[f"BU({L}, u1, t) and 0 <= 9 - t <= 3"], stubs=["sym_repr"]))
     return out
